@@ -258,15 +258,26 @@ theorem too_small_rejected_on_every_entry_point (S : SE B DM) (L : Laws S) (max 
   rw [hpass]
   exact too_small_rejected S L max fuel data hsmall
 
-/-- python.rs `encrypt` goes to the third-party crate directly; a too-small input is the crate's own error there as well
-(the binding is otherwise outside the round-trip theorems: what it returns is not a `DataMapLevel` chunk the client's
-reads accept — declared uncovered, see DESIGN). -/
-theorem too_small_rejected_python (S : SE B DM) (L : Laws S) (data : B) (hsmall : S.len data < 3) :
-    pythonEncrypt S data = none := by
+/-- python.rs `encrypt`: a too-small input is an error whichever way the binding reaches self-encryption — directly (the
+crate's own refusal) or, were it routed through the repo's `encrypt`, by `too_small_rejected` (both branches are
+proved; the statement does not lean on the flag). -/
+theorem too_small_rejected_python (S : SE B DM) (L : Laws S) (max fuel : Nat) (data : B) (hsmall : S.len data < 3) :
+    pythonEncrypt S max fuel data = .error .selfEncryption := by
   unfold pythonEncrypt
   split
-  · exact (L.enc_none_iff_small data).2 hsmall
-  · rfl
+  · rw [(L.enc_none_iff_small data).2 hsmall]
+  · rw [too_small_rejected S L max fuel data hsmall]
+
+/-- What the flag says about the code as it is (pinned by `rfl`: routing the binding through the repo's `encrypt` breaks
+this proof): the binding returns the contents of the FIRST-level chunks only, whatever the size of the data map — the
+chunks of further data-map levels and the `DataMapLevel` chunk the client's reads start from are never produced, so its
+output is outside the round-trip theorems (declared uncovered). -/
+theorem python_encrypt_bypasses_packing (S : SE B DM) (max fuel : Nat) (data : B) (dm : DM) (cs : List B)
+    (h : S.enc data = some (dm, cs)) : pythonEncrypt S max fuel data = .ok cs := by
+  have hflag : Gen.SelfEnc.pythonEncryptBypassesPacking = true := rfl
+  unfold pythonEncrypt
+  rw [hflag, h]
+  rfl
 
 /-- and what an entry point accepts is exactly what `encrypt` makes of the caller's own bytes, hence reads back as
 them (`fetch_pack_roundtrip`). -/
@@ -520,6 +531,28 @@ example : (encrypt toy 10 0 28).toOption = none := by decide
 
 end Examples
 
+
+/-! ### Non-vacuity of the put-then-get theorems (toy instance, input 28: two chunks and a data-map chunk) -/
+
+example : putEntry toy 10 5 id .dataPut 28 = .ok (⟨1819, 1819⟩, [⟨28, 28⟩, ⟨454, 454⟩]) := by rfl
+example (codes : List (List Nat)) :
+    fetchFromDataMapChunk toy (storeGet (putRecords (fun _ => true) (uploaded .dataPut ⟨1819, 1819⟩ [⟨28, 28⟩, ⟨454, 454⟩]))) 6 codes 1819 = .ok 28 :=
+  put_then_get_roundtrips toy toy_laws 10 5 id 28 ⟨1819, 1819⟩ [⟨28, 28⟩, ⟨454, 454⟩] (fun _ => true) (by rfl)
+    (by intros; rfl) (by intro a ha b hb h; exact h) 6 (by omega) codes
+example : ∃ m, storeGet (putRecords (fun _ => true) (uploaded .dataPutPublic ⟨1819, 1819⟩ [⟨28, 28⟩, ⟨454, 454⟩])) 1819 = .ok m ∧
+    m.value = 1819 ∧ ∀ codes, fetchFromDataMapChunk toy
+      (storeGet (putRecords (fun _ => true) (uploaded .dataPutPublic ⟨1819, 1819⟩ [⟨28, 28⟩, ⟨454, 454⟩]))) 6 codes m.value = .ok 28 := by
+  obtain ⟨m, h1, h2, h3⟩ := put_public_then_get_roundtrips toy toy_laws 10 5 id 28 ⟨1819, 1819⟩ [⟨28, 28⟩, ⟨454, 454⟩]
+    (fun _ => true) (by rfl) (by intros; rfl) (by intro a ha b hb h; exact h)
+  exact ⟨m, h1, h2, fun codes => h3 6 (by omega) codes⟩
+/-- a record source strictly larger than the produced chunks (two unrelated chunks, 7 and 9, besides) -/
+example (codes : List (List Nat)) :
+    fetchFromDataMapChunk toy (storeGet [⟨7, 7⟩, ⟨28, 28⟩, ⟨9, 9⟩, ⟨454, 454⟩]) 6 codes 1819 = .ok 28 :=
+  fetch_pack_roundtrip_store toy toy_laws 10 5 28 ⟨1819, 1819⟩ [⟨28, 28⟩, ⟨454, 454⟩] [⟨7, 7⟩, ⟨28, 28⟩, ⟨9, 9⟩, ⟨454, 454⟩] (by rfl)
+    (by intro c hc; simp only [List.mem_cons, List.not_mem_nil, or_false] at hc ⊢; rcases hc with rfl | rfl <;> simp)
+    (by intro c hc; simp only [List.mem_cons, List.not_mem_nil, or_false] at hc; rcases hc with rfl | rfl | rfl | rfl <;> rfl)
+    (by intro a ha b hb h; exact h) 6 (by omega) codes
+
 end SafeNet.Props.C14
 
 #print axioms SafeNet.Props.C14.fetch_pack_roundtrip
@@ -537,6 +570,7 @@ end SafeNet.Props.C14
 #print axioms SafeNet.Props.C14.too_small_rejected_on_every_entry_point
 #print axioms SafeNet.Props.C14.entry_roundtrip
 #print axioms SafeNet.Props.C14.too_small_rejected_python
+#print axioms SafeNet.Props.C14.python_encrypt_bypasses_packing
 #print axioms SafeNet.Props.C14.fetch_pack_roundtrip_store
 #print axioms SafeNet.Props.C14.uploaded_is_everything
 #print axioms SafeNet.Props.C14.put_then_get_roundtrips
